@@ -7,6 +7,7 @@ import (
 	"sort"
 	"time"
 
+	"github.com/jig/lisp"
 	"github.com/jig/lisp/types"
 )
 
@@ -16,6 +17,12 @@ func init() {
 
 // runProgram evaluates forms in a fresh, fully loaded environment.
 func runProgram(forms []Node, globals []string, timeout time.Duration) Obs {
+	return runProgramText(forms, "", globals, timeout)
+}
+
+// runProgramText: like runProgram; when text is not empty the program is READ from it (so that its
+// literals are the reader's own slices) instead of being built from the forms.
+func runProgramText(forms []Node, text string, globals []string, timeout time.Duration) Obs {
 	var obs Obs
 	ns, probe, err := NewLoadedEnv()
 	if err != nil {
@@ -24,6 +31,13 @@ func runProgram(forms []Node, globals []string, timeout time.Duration) Obs {
 	asts := make([]types.MalType, len(forms))
 	for i, f := range forms {
 		asts[i] = ToMal(f)
+	}
+	if text != "" {
+		ast, rerr := lisp.READ("(do "+text+"\n)", nil, ns)
+		if rerr != nil {
+			return Obs{K: "infra", Msg: "READ: " + rerr.Error()}
+		}
+		asts = []types.MalType{ast}
 	}
 	ctx, cancel := context.WithCancel(context.Background())
 	defer cancel()
@@ -236,6 +250,10 @@ func runProg(c *Case) Verdict {
 	if c.Opt["long_run_constant"] == "1" {
 		timeout = 600 * time.Second
 	}
-	obs := runProgram(forms, globals, timeout)
+	text := ""
+	if c.Opt["route"] == "text" {
+		text = c.Text
+	}
+	obs := runProgramText(forms, text, globals, timeout)
 	return judgeProg(c, obs)
 }
